@@ -906,7 +906,7 @@ fn term_in_fact(i: &str) -> IResult<&str, builder::Term, Error> {
         space0,
         error(
             alt((
-                parameter, string, date, integer, bytes, boolean, null, set, array, parse_map,
+                parameter, string, date, integer, bytes, boolean, null, array, parse_map, set,
             )),
             |input| match input.chars().next() {
                 None | Some(',') | Some(')') => "missing term".to_string(),
